@@ -632,10 +632,22 @@ def feasible_path_avoiding(fn, start, goal, avoid, limit=20000, prog=None, facts
                 continue
             l = s_["p"]["l"]
             r = s_["r"]
+            # what is known about the payload of l (`Ok(None)`: the payload of the Ok is a None) is kept under the key -(l + 1)
+            inner = facts.pop(-(l + 1), None)
             if r["k"] == "agg" and r.get("variant") in _VIDX:
                 facts[l] = r["variant"]
+                ops_ = r.get("ops", [])
+                if len(ops_) == 1 and ops_[0].get("p") is not None and not ops_[0]["p"].get("pr") and isinstance(facts.get(ops_[0]["p"]["l"]), str):
+                    facts[-(l + 1)] = facts[ops_[0]["p"]["l"]]
             elif r["k"] == "use" and r["a"].get("p") is not None and not r["a"]["p"].get("pr") and r["a"]["p"]["l"] in facts:
                 facts[l] = facts[r["a"]["p"]["l"]]
+                if l == r["a"]["p"]["l"] and inner is not None:
+                    facts[-(l + 1)] = inner
+                elif isinstance(facts.get(-(r["a"]["p"]["l"] + 1)), str):
+                    facts[-(l + 1)] = facts[-(r["a"]["p"]["l"] + 1)]
+            elif r["k"] == "use" and r["a"].get("p") is not None and isinstance(facts.get(-(r["a"]["p"]["l"] + 1)), str) \
+                    and [("dc" in e_ or e_.get("f") == 0) if isinstance(e_, dict) else False for e_ in r["a"]["p"].get("pr", [])] == [True, True]:
+                facts[l] = facts[-(r["a"]["p"]["l"] + 1)]          # `x = move (l as Ok).0`: the payload itself
             elif r["k"] == "use" and r["a"].get("k") == "const" and isinstance(r["a"].get("int"), int):
                 facts[l] = ("int", r["a"]["int"])          # a constant flag (`return true` in an inlined helper)
             else:
@@ -682,6 +694,9 @@ def feasible_path_avoiding(fn, start, goal, avoid, limit=20000, prog=None, facts
             known = None
             if sw and not [e for e in sw[0].get("pr", []) if e != "*"] and sw[0]["l"] in facts and not isinstance(facts[sw[0]["l"]], tuple):
                 known = _VIDX[facts[sw[0]["l"]]]
+            elif sw and isinstance(facts.get(-(sw[0]["l"] + 1)), str) and \
+                    [("dc" in e_ or e_.get("f") == 0) if isinstance(e_, dict) else False for e_ in sw[0].get("pr", []) if e_ != "*"] == [True, True]:
+                known = _VIDX[facts[-(sw[0]["l"] + 1)]]          # a match on the payload of a local whose payload is known
             sl = op_local(t["a"])
             if known is None and sl is not None and isinstance(facts.get(sl), tuple):
                 known = facts[sl][1]
